@@ -138,6 +138,7 @@ static int nlmods;
 static int forced[MAXT];
 static uint64_t forced_sp[MAXT];
 static int forced_rel[MAXT];
+static int forced_mod[MAXT];
 static int vfork_ms = 0, leader_exits = 0;
 static int want_mapper = 0;
 static int is_mapper[MAXT];
@@ -259,6 +260,11 @@ int main(int argc, char **argv) {
         if (p && idx < MAXT) {
           forced[idx] = 1;
           if (p[1] == '-') { forced_rel[idx] = 1; forced_sp[idx] = strtoull(p + 2, NULL, 0); }
+          else if (p[1] == 'M') {   // M<n>+<off>: inside the n-th -M module, wherever it got mapped
+            forced_mod[idx] = atoi(p + 2) + 1;
+            const char *plus = strchr(p, '+');
+            forced_sp[idx] = plus ? strtoull(plus + 1, NULL, 0) : 0;
+          }
           else forced_sp[idx] = strtoull(p + 1, NULL, 0);
         }
         break;
@@ -455,6 +461,7 @@ int main(int argc, char **argv) {
     fill_regs(i);
     sh->regs[i].adj = adj;
     if (forced[i]) { sh->regs[i].sp_forced = 1; sh->regs[i].adj = forced_sp[i]; }
+    if (forced[i] && forced_mod[i] > 0 && forced_mod[i] <= nlmods) sh->regs[i].adj = lmod_addr[forced_mod[i] - 1] + forced_sp[i];
     sh->regs[i].below_ptr = nregions > 0 ? regions[0].addr + 8 : 0;
     sh->regs[i].above_ptr = (nregions > 0 && (i % 2) == 1) ? regions[0].addr + 24 : 0;
     is_spin[i] = i > nblock;
